@@ -44,21 +44,21 @@ var delims = []string{"", ",", ";", "|", "\t", " ", ":", "\"", "\n", "あ", `\t`
 var badDelims = []string{"ab", ",,", `\\\\`}
 var weirdPositions = []string{"SPACES", "spaces", "[]", "S[]", "[0]", "[-1]", "[3,2]", "[2,2]", "[1,1000000000]", "[1,2,3,4,5,6,7,8,9,10,11,12]", "S[1,3]", "s[2]", "[1.5]", "[9223372036854775808]", "[\"1\"]", "{}", "garbage", "S[", "[1,2", "[5]", "[2,4,6]", "[1,5,9]"}
 
-// Known genuine defect (reported): FIXED with single-line mode and an empty
+// Genuine defect found by this check, FIXED in /repo (9bfa47c): FIXED with single-line mode and an empty
 // position list ('S[]') never reaches the end of the data: the reader returns
 // empty records for ever and memory grows without bound. The generator keeps
 // away from that exact shape so that the search continues; set to false to
 // reproduce it (signature fixed_single_line_no_positions_endless_loop).
-const avoidKnownSingleLineNoPositions = true
+const avoidKnownSingleLineNoPositions = false
 
-// Known genuine defect (reported): readRecordSet (lib/query/load_view.go:1245)
+// Genuine defect found by this check, FIXED in /repo (6284839): readRecordSet (lib/query/load_view.go:1245)
 // re-allocates the record set after 300 records with capacity
 // fileSize/pos*300*1.2, where pos is the number of data bytes in those records:
 // a 300 KB file whose first 300 records hold one byte of data reserves 2.5 GB,
 // 1.5 MB reserve 13 GB. While true the generated inputs stay below 100 KB (at
 // most 0.86 GB, under the memory ceiling of the oracle); set to false to let
 // the generator build such files (signature record_set_preallocation_unbounded).
-const avoidKnownPreallocation = true
+const avoidKnownPreallocation = false
 
 func maxDataLen() int {
 	if avoidKnownPreallocation {
@@ -528,8 +528,9 @@ func genLoad(t *rapid.T) loadCase {
 			c.Pos = "S[1]"
 		}
 	}
-	if !avoidKnownPreallocation && fw.Pct(t, "sparseHead", 2) {
-		c.Data = []byte("a,b\nx,\n" + strings.Repeat(",\n", 150000))
+	if !avoidKnownPreallocation && fw.Uniform(t, "sparseHead", 500) == 0 {
+		// 300 records with one byte of data in front of a long file: the loader's capacity estimate
+		c.Data = []byte("a,b\nx,\n" + strings.Repeat(",\n", 65000))
 		c.Origin += "+sparse_head"
 	}
 	if len(c.Data) > maxDataLen() {
